@@ -153,6 +153,14 @@ def check_C04(run):
              acts=['write', 'delete', 'close_active', 'restore_active', 'dump_idx', 'force_update'], nkeys=1,
              hcfgs=[dict(ks=4, bloom='small', group=2, rt='mt', wait=False), dict(ks=8, bloom='off', group=3, rt='ct', wait=False)],
              sample=(1, 20) if q else (1, 2)),
+        # three keys: a blob whose key range encloses, or lies inside, or beside the range of the blobs closed before
+        # it (what the merged filters of the closed-blob container have to cope with); small groups so that the
+        # merged filters are consulted
+        dict(name='range-3k', consts=dict(Keys='{1, 2, 3}', MaxTs='1'), genlen=5 if q else 6,
+             acts=['write', 'close_active', 'create_active', 'restore_active'], nkeys=3,
+             hcfgs=[dict(ks=4, bloom='small', group=2, rt='mt', wait=True), dict(ks=8, bloom='off', group=2, rt='ct', wait=True),
+                    dict(ks=32, bloom='odd', group=3, rt='mt', wait=True), dict(ks=4, bloom='tiny', group=2, rt='mt', wait=False)],
+             sample=(1, 1)),
         dict(name='sim', consts=dict(Keys='{1, 2}', MaxTs='3', Metas='{0, 1}', OffloadLevels='{0, 1, 2}'), genlen=30,
              acts=['write', 'delete'] + LIFE_ALL, preds=('always', 'never', 'ifactive'), nkeys=2,
              simulate=300 if q else 20000, workers=1 if q else 8),
@@ -454,13 +462,21 @@ def check_C09(run):
     # KS = 2000: one header per block, inner nodes of 2..3 children -> deep trees from few keys
     ie.family('perturb-2000', 2000, 16 if q else 60, (1, 2, 3), patterns=('zigzag',), family='perturb',
               perturb_from=1, sample=(1, 2) if q else (1, 1))
+    # key lengths in the three remainder classes of the fan-out division (5 children per inner node, 4 headers per
+    # leaf block): full inner nodes already with ~20 headers
+    for ks in (807, 808, 809):
+        if not q or ks == 809:
+            ie.family('all-%d' % ks, ks, 5 if q else 8, (1, 2, 5, 9), patterns=('asc', 'equal') if q else pats, delats=(0, 2),
+                      sample=(1, 4) if q else (1, 2))
+        ie.family('perturb-%d' % ks, ks, 26 if q else 90, (1, 3, 4), patterns=('asc',), family='perturb', perturb_from=14 if q else 1,
+                  sample=(1, 2) if q else (1, 1))
     if not q:
         ie.family('all-2000', 2000, 7, (1, 2, 3), patterns=pats, delats=(0, 1, 3), sample=(1, 2))
         ie.family('all-1300', 1300, 6, (1, 2, 3, 4), patterns=('asc', 'equal'), delats=(0, 2), sample=(1, 2))
         ie.family('perturb-1300', 1300, 70, (3, 4, 7), family='perturb', sample=(1, 2))
         ie.family('all-500', 500, 5, (1, 3, 7, 8, 15), patterns=('zigzag',), sample=(1, 2))
         ie.family('perturb-4', 4, 160, (40, 67, 68, 200), family='perturb', perturb_from=100, sample=(1, 8))
-    run.assumptions += ['KS is a model constant: 1000 / 1300 / 2000 / 500 / 4 are replayed with the same key length in the real storage',
+    run.assumptions += ['KS is a model constant: 1000 / 2000 / 807 / 808 / 809 (and 1300 / 500 / 4 in the thorough tier) are replayed with the same key length in the real storage',
                         'lookups below a deletion marker are not observable through Storage; full runs are compared in marker-free shapes']
     return run.finish('model_checking', ie.coverage())
 
@@ -506,6 +522,26 @@ def check_C10(run):
         nkeys = s.pop('nkeys')
         r = se.generate(**s)
         mm = se.replay(r['out'], hc, nkeys, tag='-' + s['name'])
+        se.judge(mm)
+        os.remove(r['out'])
+    # one behaviour per TRANSITION of the hierarchy model (GenFilters), executed on the real storage with the
+    # model's group size; afterwards every written key must be found by every query and passed by every filter
+    for name, consts, keep in [('edges-g3', dict(KeysF='{1, 2}', NBits='4', GroupSize='3', MaxBlobs='4', Level='1', OffLevels='{0, 1}'), (1, 40) if q else (1, 1)),
+                               ('edges-g2', dict(KeysF='{1, 2}', NBits='4', GroupSize='2', MaxBlobs='4', Level='1', OffLevels='{1, 2}'), (1, 120) if q else (1, 2))]:
+        c = dict(consts, SampleKeep=str(keep[0]), SampleMod=str(keep[1]), Seed=str(run.seed))
+        text = store.cfg_text('GSpec', c, ['NoFalseNegative', 'ActiveNoFalseNegative'], 'VIEW GView\nCONSTRAINT FBound\nACTION_CONSTRAINT EmitEdge\n')
+        r = run.tlc('GenFilters', text, name, workers=8, timeout=3000)
+        se.mc_states += r['distinct']
+        se.mc_transitions += r['generated']
+        run.log('TLC %s: %d transitions / %d states of the hierarchy model, ok=%s' % (name, r['generated'], r['distinct'], r['ok']))
+        if not r['ok']:
+            raise ToolError('TLC failed in %s' % name)
+        g = int(consts['GroupSize'])
+        hcg = [dict(ks=4, bloom='small', group=g, rt='mt', wait=True), dict(ks=8, bloom='tiny', group=g, rt='ct', wait=True),
+               dict(ks=4, bloom='default', group=g, rt='mt', wait=True), dict(ks=32, bloom='off', group=g, rt='mt', wait=True)]
+        se.extra_args = ['--probe-written']
+        mm = se.replay(r['out'], hcg, 2, tag='-' + name)
+        se.extra_args = []
         se.judge(mm)
         os.remove(r['out'])
     run.assumptions += ['false positives are never an alarm; for absent keys only equality of the answers before and after off-loading is demanded',
@@ -966,6 +1002,8 @@ def check_C08(run):
         dict(name='ct-32', clients=32, ops=20 if q else 100, keys=12, cfg=dict(rt='ct', ks=8, bloom='small', group=3)),
         dict(name='mt-rot-64', clients=64, ops=12 if q else 60, keys=15, cfg=dict(rt='mt', ks=8, bloom='odd', group=2, max_recs=40)),
         dict(name='ct-rot-16', clients=16, ops=30 if q else 120, keys=6, cfg=dict(rt='ct', ks=8, bloom='off', group=2, max_recs=25)),
+        dict(name='mt-life-24', clients=24, ops=40 if q else 200, keys=8, cfg=dict(rt='mt', ks=8, bloom='small', group=2), lifecycle=40),
+        dict(name='ct-life-16', clients=16, ops=50 if q else 250, keys=6, cfg=dict(rt='ct', ks=8, bloom='off', group=3, max_recs=30), lifecycle=25),
         dict(name='ct-1100', clients=1100, ops=2, keys=20, cfg=dict(rt='ct', ks=8, bloom='off', group=8, max_recs=5), deadline=45),
         dict(name='mt-3000', clients=3000, ops=1 if q else 3, keys=20, cfg=dict(rt='mt', ks=8, bloom='off', group=8, max_recs=200), deadline=60),
     ]
@@ -975,7 +1013,8 @@ def check_C08(run):
         out = os.path.join(run.work, 'conc-%s.out' % rn['name'])
         tr = os.path.join(run.work, 'conc-%s.ndjson' % rn['name'])
         cmd = [os.path.join(BIN, 'conc'), '--cfg', json.dumps(h), '--clients', str(rn['clients']), '--ops', str(rn['ops']),
-               '--keys', str(rn['keys']), '--out', tr, '--sessions', '2', '--deadline-s', str(rn.get('deadline', 90))]
+               '--keys', str(rn['keys']), '--out', tr, '--sessions', '2', '--deadline-s', str(rn.get('deadline', 90)),
+               '--lifecycle', str(rn.get('lifecycle', 0))]
         procs.append((subprocess.Popen(cmd, stdout=open(out, 'w'), stderr=open(out + '.err', 'w')), out, tr, rn, h))
     total_ops = events = traces = 0
     for p, out, tr, rn, h in procs:
